@@ -149,7 +149,11 @@ func loadCorpus() []string {
 		return c03Corpus
 	}
 	var files []string
-	for _, g := range []string{"/repo/examples/*.mtail", "/repo/internal/runtime/fuzz/*.mtail", "/repo/internal/mtail/testdata/*.mtail"} {
+	repo := os.Getenv("VERIF_REPO")
+	if repo == "" {
+		repo = "/repo"
+	}
+	for _, g := range []string{repo + "/examples/*.mtail", repo + "/internal/runtime/fuzz/*.mtail", repo + "/internal/mtail/testdata/*.mtail"} {
 		m, _ := filepath.Glob(g)
 		files = append(files, m...)
 	}
